@@ -316,7 +316,12 @@ def check_destroy(rep, db, f, inst, vals):
         clears = {fmt(e.c) for e in evs if e.kind == "CALL" and q.short(e.a) == "clear" and e.c is not None}
         rec = db.rec_by_id.get(f.get("rid")) or {}
         # every per-object standard container (by TYPE): the registered keys and the symbol caches; the app-pointer table is C15's
-        conts = [fl["n"] for fl in rec.get("fields", []) if ((fl["t"] or {}).get("c") or "").startswith(("std::vector<", "std::map<", "std::unordered_map<", "std::set<", "std::list<", "std::deque<"))]
+        # the per-object containers the statement names, identified by TYPE: the registered keys (a sequence of void*) and the symbol
+        # caches (name -> void*); the app-pointer table is C15's, the profiling log (transition_times) is the user's to clear
+        def is_registry(c):
+            return c.startswith(("std::vector<void *>", "std::set<void *>", "std::unordered_set<void *>", "std::list<void *>")) or \
+                (c.startswith(("std::map<", "std::unordered_map<")) and c.rstrip("> ").endswith("void *") and "string" in c)
+        conts = [fl["n"] for fl in rec.get("fields", []) if is_registry((fl["t"] or {}).get("c") or "")]
         if "callback_keys" not in conts:
             rep.require(False, "anchor field callback_keys not found in rlbox_sandbox")
         for cont in conts:
